@@ -1,6 +1,7 @@
 package c09
 
 import (
+	"fmt"
 	"math/rand"
 	"time"
 
@@ -545,6 +546,108 @@ func genTimeRecipe(r *rand.Rand, k int, pool []*chainInfo) *scenario {
 	}
 	d.Calls = []callDesc{cd}
 	d.InitPerm = perm
+	for _, f := range sc.forks {
+		d.Forks = append(d.Forks, f.desc)
+	}
+	for _, q := range sc.provs {
+		d.Providers = append(d.Providers, q.desc)
+	}
+	return sc
+}
+
+// genFwdRecipe: the "forward lunatic" family.  The primary serves a forged (lunatic) header at a
+// height ABOVE the head of an honest but lagging witness, signed by a coalition holding more than the
+// trust level of the trust root's validator set, so skipping verification accepts it in one step.  The
+// forged header's time T is placed relative to the time of the honest witness' head block H:
+// T = time(H) + {-far, -1ns, 0, +1ns, +far}.  Block time strictly increases with height, so a block
+// at a LOWER height whose time is NOT BEFORE T contradicts the forged header: for T <= time(H) the
+// client must report an attack, hand evidence naming the primary's block to that witness and store
+// nothing - whether or not another witness colludes and returns the identical forged header.  For
+// T > time(H) the witness is merely behind and proves nothing.  Variants: the contradicting block is
+// the witness' head at the first query, or it only appears while the client waits (2*drift+lag).
+func genFwdRecipe(r *rand.Rand, k int, pool []*chainInfo) *scenario {
+	ci := pool[(k*3+2)%len(pool)]
+	sc := &scenario{ci: ci}
+	d := &sc.desc
+	d.Stream, d.Case = "recipe-fwd", k
+	d.Chain, d.ChainLen, d.Churn, d.Vals = ci.idx, ci.n, ci.churn, ci.nvals
+	n := ci.n
+	d.Mode = "skipping"
+	tl := [][2]int64{{1, 3}, {1, 2}, {2, 3}}[(k/40)%3]
+	d.TrustNum, d.TrustDen = tl[0], tl[1]
+	period := time.Duration(n+50) * ci.interval * 2
+	d.PeriodMs = period.Milliseconds()
+	drift := []time.Duration{time.Millisecond, 5 * time.Millisecond}[k%2]
+	d.DriftMs = drift.Milliseconds()
+	sc.par = params{chainID: ci.ch.ChainID, period: period, drift: drift, num: tl[0], den: tl[1]}
+	deltaClass := k % 5
+	collude := (k/5)%2 == 1
+	lateProof := (k/10)%2 == 1
+	extraSilent := (k/20)%2 == 1
+	d.Root = between(r, 1, n-8)
+	head := between(r, d.Root+4, n-1) // the honest witness' (final) head
+	target := between(r, head+1, n)
+	d.DeltaUs = 300
+	var delta time.Duration
+	switch deltaClass {
+	case 0:
+		delta = -time.Duration(2+r.Intn(1500)) * time.Millisecond
+	case 1:
+		delta = -time.Nanosecond
+	case 2:
+		delta = 0
+	case 3:
+		delta = time.Nanosecond
+	default:
+		delta = time.Duration(2+r.Intn(1500)) * time.Millisecond
+	}
+	tf := ci.time(head).Add(delta)
+	d.Recipe = fmt.Sprintf("forward lunatic: forged header at height %d with time = time(honest witness head %d) %+dns; colluding witness: %v; contradicting block appears during the wait: %v",
+		target, head, delta.Nanoseconds(), collude, lateProof)
+	sc.coalition = pickCoalition(r, ci, "high", d.Root, d.Root)
+	f := buildForkT(r, ci, "lunatic", target, target, sc.coalition, "high", nil, &tf)
+	f.desc.Kind = "lunatic (forward: above the honest witness' head)"
+	sc.forks = append(sc.forks, f)
+	p := sc.newProv(r, 0, "primary", "fork", ci.forkView(f))
+	p.reliable = true
+	sc.provs = []*prov{p}
+	w := sc.newProv(r, 1, "witness", "lagging", ci.canonView())
+	w.desc.Tip = head
+	if lateProof {
+		// request 1 = initial cross-check, 2 = target (too high), 3 = latest (old head), 4 = latest after the wait
+		w.desc.Tip = between(r, d.Root+1, head-2)
+		w.desc.CatchUp, w.desc.TipLate = 3, head
+	}
+	sc.provs = append(sc.provs, w)
+	if collude {
+		a := sc.newProv(r, len(sc.provs), "witness", "fork", ci.forkView(f))
+		a.reliable = true
+		sc.provs = append(sc.provs, a)
+	}
+	if extraSilent {
+		q := sc.newProv(r, len(sc.provs), "witness", "silent", ci.canonView())
+		q.desc.Rules = []rule{{Act: "noresp", HLo: d.Root + 1}}
+		sc.provs = append(sc.provs, q)
+	}
+	ids := make([]int, 0, len(sc.provs)-1)
+	for i := 1; i < len(sc.provs); i++ {
+		ids = append(ids, i)
+	}
+	perm := append([]int{0}, nthPerm(ids, k/3)...)
+	now := ci.time(n).Add(2 * time.Second)
+	op := []string{"verify_at", "update", "verify_header"}[(k/7)%3]
+	cd := callDesc{Op: op, Height: target, now: now, NowMs: now.Sub(ci.ch.Opt.GenesisTime).Milliseconds(), Perm: perm}
+	if op == "update" {
+		// Update asks the primary for its latest block: make the forged height the primary's head
+		p.desc.Tip = target
+		cd.Height = 0
+	}
+	if op == "verify_header" {
+		hc := *f.hdrs[target]
+		cd.hdr, cd.HdrFrom = &hc, "fork"
+	}
+	d.Calls = []callDesc{cd}
+	d.InitPerm = append([]int{0}, ids...)
 	for _, f := range sc.forks {
 		d.Forks = append(d.Forks, f.desc)
 	}
